@@ -107,8 +107,15 @@ RECORD_ATTRS = [
     ("pp4", "#pragma pack(push, 4)\n", "", "\n#pragma pack(pop)"),
     ("pp8", "#pragma pack(push, 8)\n", "", "\n#pragma pack(pop)"),
 ]
+# attributes that do NOT change the layout and that libclang reports as "unexposed" (only used where asked for by name)
+NEUTRAL_RECORD_ATTRS = [
+    ("dep", "", "__attribute__((deprecated))", ""), ("unused", "", "__attribute__((unused))", ""), ("mayalias", "", "__attribute__((may_alias))", ""),
+    ("depmsg", "", "__attribute__((deprecated(\"old\")))", ""), ("vis", "", "__attribute__((visibility(\"default\")))", ""),
+    ("al4+dep", "", "__attribute__((aligned(4), deprecated))", ""),
+]
 # member attributes applied to the LAST plain member of a record (suffix before ';')
-MEMBER_ATTRS = [("", ""), ("mal8", "__attribute__((aligned(8)))"), ("mal16", "__attribute__((aligned(16)))"), ("mal64", "__attribute__((aligned(64)))"), ("mpk", "__attribute__((packed))")]
+MEMBER_ATTRS = [("", ""), ("mal8", "__attribute__((aligned(8)))"), ("mal16", "__attribute__((aligned(16)))"), ("mal64", "__attribute__((aligned(64)))"), ("mpk", "__attribute__((packed))"),
+                ("mdep", "__attribute__((deprecated))"), ("munused", "__attribute__((unused))")]
 
 
 KW_BY_POS = [("type", "fn"), ("match", "impl"), ("mod", "use"), ("loop", "dyn")]  # Rust keywords that are plain C identifiers
@@ -147,7 +154,7 @@ class RecordCase:
             s = ATOM[k].support.format(t=t)
             if s and s not in sup:
                 sup.append(s)
-        pre, attr, post = next((b, a, c) for (key, b, a, c) in RECORD_ATTRS if key == self.rattr)
+        pre, attr, post = next((b, a, c) for (key, b, a, c) in RECORD_ATTRS + NEUTRAL_RECORD_ATTRS if key == self.rattr)
         body = []
         mtext = dict(MEMBER_ATTRS)[self.mattr] if self.mattr else ""
         for pos, k in enumerate(self.atoms):
